@@ -105,6 +105,19 @@ func c13Run(o *common.Out, id string, nkeys, instances int, updates [][]int) {
 		m := names(u)
 		if ui > 0 {
 			sel.UpdateServer(m)
+			// every independently built client receives the same update (each from a map of its own): they still agree
+			for i := 1; i < instances; i++ {
+				sels[i].UpdateServer(names(u))
+			}
+			for _, k := range keys {
+				r0 := chSelect(sel, k)
+				for i := 1; i < instances; i++ {
+					if r := chSelect(sels[i], k); r != r0 {
+						o.Fail(id, "instances-disagree", fmt.Sprintf("two clients built from the same set and given the same updates (the last one to %d servers) map key %q to %s and %s", len(m), k, r0, r), abstract)
+						i = instances
+					}
+				}
+			}
 		}
 		// the model gets the names rotated (its own sort must undo that)
 		ns := sortedNames(m)
